@@ -35,7 +35,11 @@ PROPERTY = "C11"
 _Q_MAX, _T_MAX = 8, 24
 
 META = {
-    "bounds": "mesh functions, minimise_xyz, to_xyz: all six source / "
+    "bounds": "links_between: every ordered pair of chips of the 1x1, 1x2, "
+              "2x1, 2x2, 2x3, 3x2, 3x3 tori (thorough: also 1x3, 3x1, 4x2, "
+              "2x4, 4x4), the set of dead links symbolic (one solver boolean "
+              "per link looked at, at most two dead).  "
+              "Mesh functions, minimise_xyz, to_xyz: all six source / "
               "destination components unbounded symbolic integers (every "
               "three-axis representation, negatives included).  Torus "
               "functions: the same six unbounded symbolic components, every "
